@@ -8,6 +8,7 @@ mod schedmc;
 mod heapmc;
 mod modmc;
 mod itermc;
+mod strmc;
 mod workers;
 mod run;
 mod hostobj;
@@ -59,6 +60,7 @@ fn main() {
         "heapmc" => heapmc::run(&args),
         "modmc" => modmc::run(&args),
         "itermc" => itermc::run(&args),
+        "strmc" => strmc::run(&args),
         "progmc-core" => progmc::run_profile(
             &args,
             run::RunCfg::default(),
